@@ -24,6 +24,18 @@ def sliceShape (s : Shape) (start stop : Int) : Shape :=
 
 namespace flatten
 
+/-- Python slice bounds `l[a:b]` on a list of length `r` (step 1). -/
+def pyBound (r : Nat) (a : Int) : Nat :=
+  if a < 0 then (a + (r : Int)).toNat else min a.toNat r
+
+/-- The target computed at trace time for a static shape (fix ad30c36):
+`[*shape[:start], prod(shape[start:end+1]), *shape[end+1:]]` with Python slicing. -/
+def staticTarget (s : Shape) (sd ed : Int) : Shape :=
+  let r := s.length
+  let a := pyBound r sd
+  let b := pyBound r (ed + 1)
+  s.take a ++ [numel ((s.take b).drop a)] ++ s.drop b
+
 def model (s : Shape) (sd ed : Int) : Option Shape :=
   let dim : Int := s.length
   if dim = 1 then some s
@@ -31,24 +43,17 @@ def model (s : Shape) (sd ed : Int) : Option Shape :=
   else if sd = 0 ∧ (ed = -2 ∨ ed = dim - 2) then flattenOp s (ed + 1)
   else
     let ed' := if ed < 0 then dim + ed else ed
-    let head := (sliceShape s 0 sd).map (Int.ofNat ·)
-    let tgt := if ed' < dim - 1 then head ++ [-1] ++ (sliceShape s (ed' + 1) dim).map (Int.ofNat ·)
-               else head ++ [-1]
-    reshape false s tgt
+    let tgt := staticTarget s sd ed'
+    reshape true s (tgt.map (Int.ofNat ·))
 
-def term (r : Nat) (sd ed : Int) : String :=
-  let dim : Int := r
+def term (s : Shape) (sd ed : Int) : String :=
+  let dim : Int := s.length
   if dim = 1 then tOp "Identity" ["x0"]
   else if sd = 1 ∧ (ed = -1 ∨ ed = dim - 1) then tOp "Flatten" ["x0"] [("axis", tI sd)]
   else if sd = 0 ∧ (ed = -2 ∨ ed = dim - 2) then tOp "Flatten" ["x0"] [("axis", tI (ed + 1))]
   else
     let ed' := if ed < 0 then dim + ed else ed
-    let shp := tOp "Shape" ["x0"] [("start", "0")]
-    let head := tOp "Slice" [shp, "[0]", tInts [sd], "[0]"]
-    let parts := if ed' < dim - 1 then
-        [head, "[-1]", tOp "Slice" [shp, tInts [ed' + 1], tInts [dim], "[0]"]]
-      else [head, "[-1]"]
-    tOp "Reshape" ["x0", tOp "Concat" parts [("axis", "0")]] [("allowzero", "0")]
+    tOp "Reshape" ["x0", tNats (staticTarget s sd ed')] [("allowzero", "1")]
 
 /-- `torch.flatten(x, start_dim, end_dim)`. -/
 def spec (s : Shape) (sd ed : Int) : Option Shape :=
@@ -227,11 +232,25 @@ end squeeze
 
 namespace squeeze_dim
 
-def model (s : Shape) (dim : Int) : Option Shape :=
-  if s.length = 0 then some s else squeezeOp s [dim]
+/-- `self.shape[dim]` in Python: `dim` in `[-r, r)`, negative wraps; otherwise IndexError. -/
+def pyIndex (s : Shape) (dim : Int) : Option Nat :=
+  let r : Int := s.length
+  if 0 ≤ dim ∧ dim < r then some (s.getD dim.toNat 0)
+  else if -r ≤ dim ∧ dim < 0 then some (s.getD (dim + r).toNat 0)
+  else none
 
-def term (r : Nat) (dim : Int) : String :=
-  if r = 0 then tOp "Identity" ["x0"] else tOp "Squeeze" ["x0", tInts [dim]]
+/-- fix 3fa9486: a (static) dimension of size ≠ 1 is left alone (`Identity`), as in PyTorch; only a size-1 axis reaches `Squeeze`. -/
+def model (s : Shape) (dim : Int) : Option Shape :=
+  if s.length = 0 then some s
+  else match pyIndex s dim with
+    | none => none
+    | some d => if d ≠ 1 then some s else squeezeOp s [dim]
+
+def term (s : Shape) (dim : Int) : String :=
+  if s.length = 0 then tOp "Identity" ["x0"]
+  else match pyIndex s dim with
+    | some d => if d ≠ 1 then tOp "Identity" ["x0"] else tOp "Squeeze" ["x0", tInts [dim]]
+    | none => "IndexError"
 
 /-- `x.squeeze(dim)`: removes the axis only if its size is 1, otherwise a no-op. -/
 def spec (s : Shape) (dim : Int) : Option Shape :=
